@@ -1706,7 +1706,7 @@ else:
           else:
               if not L: raise KeyError(key)
               _value = value[0]
-          sql = "delete from %s where argstr = ?" % self.__state__['id']
+          sql = "delete from %s where argstr is ?" % self.__state__['id']
           self._engine.execute(sql, (key,))
           self._conn.commit()
           return _value 
@@ -1740,7 +1740,7 @@ else:
       update.__doc__ = dict.update.__doc__
       def _select_key_items(self, key):
           '''Return a tuple of (key, value) pairs that match the specified key'''
-          sql = "select * from %s where argstr = ?" % self.__state__['id']
+          sql = "select * from %s where argstr is ?" % self.__state__['id']
           return tuple(self._engine.execute(sql, (key,)))
       # interface
       def __get_name(self):
